@@ -99,16 +99,18 @@ impl Case {
     }
 }
 
-trait Kind: Send + Sync + 'static {
-    type Item: Clone + PartialEq + Debug + Send + Unpin + 'static;
-    type E: MessageEncoder<Self::Item> + Clone + Send + Unpin + 'static;
-    type D: MessageDecoder<Self::Item> + Send + Unpin + 'static;
+pub trait Kind: Send + Sync + 'static {
+    type Item: Clone + PartialEq + Debug + Send + Sync + Unpin + 'static;
+    type E: MessageEncoder<Self::Item> + Clone + Send + Sync + Unpin + 'static;
+    type D: MessageDecoder<Self::Item> + Clone + Send + Sync + Unpin + 'static;
     fn enc() -> Self::E;
     fn dec() -> Self::D;
     fn item(bytes: Vec<u8>) -> Self::Item;
     fn tag(i: &Self::Item) -> Vec<u8>;
+    /// the bytes `item` was built from
+    fn body(i: &Self::Item) -> Vec<u8>;
 }
-struct KString;
+pub struct KString;
 impl Kind for KString {
     type Item = String;
     type E = StringCodec;
@@ -117,8 +119,9 @@ impl Kind for KString {
     fn dec() -> StringCodec { StringCodec }
     fn item(b: Vec<u8>) -> String { String::from_utf8_lossy(&b).into_owned() }
     fn tag(i: &String) -> Vec<u8> { i.as_bytes()[..i.len().min(16)].to_vec() }
+    fn body(i: &String) -> Vec<u8> { i.as_bytes().to_vec() }
 }
-struct KBytes;
+pub struct KBytes;
 impl Kind for KBytes {
     type Item = Vec<u8>;
     type E = BytesCodec;
@@ -127,8 +130,9 @@ impl Kind for KBytes {
     fn dec() -> BytesCodec { BytesCodec }
     fn item(b: Vec<u8>) -> Vec<u8> { b }
     fn tag(i: &Vec<u8>) -> Vec<u8> { i[..i.len().min(16)].to_vec() }
+    fn body(i: &Vec<u8>) -> Vec<u8> { i.clone() }
 }
-struct KBincode;
+pub struct KBincode;
 impl Kind for KBincode {
     type Item = Record;
     type E = BincodeCodec<Record>;
@@ -140,6 +144,7 @@ impl Kind for KBincode {
         Record { id: b.len() as u64, name, tags: vec!["t".into(); b.len() % 3], opt: if b.len() % 2 == 0 { Some(b.len() as i32) } else { None }, shape: c14::Shape::Named("n".into(), Some(Box::new(c14::Shape::Circle { r: b.len() as u32 }))), blob: b, nested: vec![vec![1, 2], vec![]], flag: true, ch: 'é' }
     }
     fn tag(i: &Record) -> Vec<u8> { i.name.as_bytes().to_vec() }
+    fn body(i: &Record) -> Vec<u8> { i.blob.clone() }
 }
 
 #[derive(Default, Debug)]
